@@ -984,3 +984,118 @@ func runF8(p *an.Prog, r *an.Result) {
 	}
 	r.Floor("slices made with a length", 3)
 }
+
+// ---------------------------------------------------------------------------
+// X14
+
+func init() {
+	register("X14", "outside the conversion routine itself, a value is reflect-converted to a type taken from another run-time value (a map's key type, an array's element type) only losslessly: to an interface it implements, or with the result converted back and compared with the original", runX14)
+}
+
+func runX14(p *an.Prog, r *an.Result) {
+	for _, fn := range p.Funcs {
+		if isMainPkg(fn) || p9OutOfScope(p, fn) != "" {
+			continue
+		}
+		o := an.Outermost(fn)
+		if n := an.FuncName(o); n == "values.Convert" || n == "values.MustConvert" {
+			continue // the conversion routine: converting is its purpose, to the type its caller names
+		}
+		name := an.FuncName(fn)
+		an.EachInstr(fn, func(in ssa.Instruction) {
+			c, ok := in.(*ssa.Call)
+			if !ok || an.CallName(&c.Call) != "(reflect.Value).Convert" {
+				return
+			}
+			typ := c.Call.Args[1]
+			// the second leg of a round trip (converting a converted value back) is the check, not a conversion of data
+			if inner := an.CallOf(c.Call.Args[0]); inner != nil && an.CallName(inner) == "(reflect.Value).Convert" {
+				return
+			}
+			// a fixed type held in a package-level variable
+			fixed := true
+			for _, o := range an.Origins(typ, an.StepValue) {
+				u, ok := o.(*ssa.UnOp)
+				if !ok {
+					fixed = false
+					continue
+				}
+				if _, isG := u.X.(*ssa.Global); !isG {
+					fixed = false
+				}
+			}
+			if fixed {
+				return
+			}
+			r.Counts["conversions to a run-time type"]++
+			construct := fmt.Sprintf("%s.Convert(%s)", describe(p, c.Call.Args[0]), describe(p, typ))
+			// (a) to an interface the value's type implements
+			if an.AllPathsGuarded(c.Block(), func(cond ssa.Value, taken bool) bool {
+				cc := an.CallOf(cond)
+				if cc == nil || !taken {
+					return false
+				}
+				n := an.CallName(cc)
+				return (strings.HasSuffix(n, ").Implements") || strings.HasSuffix(n, ").AssignableTo")) && len(an.Args(cc)) == 2 && sameValue(an.Args(cc)[1], typ)
+			}) {
+				r.OK(name, construct, c.Pos(), "the value's type implements / is assignable to the target: nothing is lost")
+				return
+			}
+			// (b) converted back and compared
+			rt := false
+			if c.Referrers() != nil {
+				for _, u := range *c.Referrers() {
+					bc, ok := u.(*ssa.Call)
+					if !ok || an.CallName(&bc.Call) != "(reflect.Value).Convert" || bc.Call.Args[0] != ssa.Value(c) {
+						continue
+					}
+					// bc.Interface() == orig.Interface() decides a branch that guards the other uses of c
+					var cmp *ssa.BinOp
+					var walk func(v ssa.Value, d int)
+					walk = func(v ssa.Value, d int) {
+						if d > 3 || v.Referrers() == nil {
+							return
+						}
+						for _, uu := range *v.Referrers() {
+							switch y := uu.(type) {
+							case *ssa.Call:
+								walk(y, d+1)
+							case *ssa.BinOp:
+								if y.Op == token.EQL || y.Op == token.NEQ {
+									cmp = y
+								}
+							}
+						}
+					}
+					walk(bc, 0)
+					if cmp == nil {
+						continue
+					}
+					okUses := true
+					for _, u2 := range *c.Referrers() {
+						if u2 == ssa.Instruction(bc) {
+							continue
+						}
+						if _, dbg := u2.(*ssa.DebugRef); dbg {
+							continue
+						}
+						if !an.AllPathsGuarded(u2.Block(), func(cond ssa.Value, taken bool) bool {
+							return cond == ssa.Value(cmp) && (cmp.Op == token.EQL) == taken
+						}) {
+							okUses = false
+						}
+					}
+					if okUses {
+						rt = true
+					}
+				}
+			}
+			if rt {
+				r.OK(name, construct, c.Pos(), "used only where converting back gave the original value")
+			} else {
+				r.Bad(name, construct, c.Pos(), fmt.Sprintf("%s converts a value to a type taken from other data without checking that nothing was lost: 2.5 becomes 2, 257 becomes int8(1), 65 becomes \"A\"", name))
+			}
+		})
+	}
+	r.Floor("conversions to a run-time type", 2)
+}
